@@ -85,8 +85,8 @@ def gen_case(ctx, idx, stream='case'):
     if c['type'] == 'LABELMAP' and r.random() < 0.6:
         pool = [1, 2, 3, 5, 8, 13, 40, 100, 254, 255, 256, 257, 300, 511, 700, 4097, 65535]
         segs = sorted(r.sample(pool, nseg))
-        if isfloat and c['layout'] != '4d' and segs[0] != 1:
-            segs[0] = 1
+        if isfloat and c['layout'] != '4d' and segs[0] != 1 and r.random() < 0.8:
+            segs[0] = 1         # (the remaining 20 % exercise the open finding C01-float-labelmap-undescribed)
     else:
         segs = list(range(1, nseg + 1))
     c['segs'] = segs
@@ -256,6 +256,8 @@ def must_refuse(c, mask):
             return 'float_range'
         if c['type'] != 'FRACTIONAL' and np.any((m > 0) & (m < 1)):
             return 'float_nonbinary'
+        if c['type'] == 'LABELMAP' and m.ndim == 3 and 1 not in segs and np.any(m == 1.0):
+            return 'undescribed'        # a binary 3-D mask is segment number 1, which is not described
     elif m.ndim == 4:
         if m.max() > 1:
             return 'nonbinary4d'
@@ -406,7 +408,7 @@ def run_case(ctx, c, reqs, pending, paths=('memory', 'eager', 'lazy')):
         if seg is not None:
             ctx.fail(desc, f'invalid input accepted ({refuse or "max_fractional_value outside 1..255"})', site='refusal')
         reqs.append(('build', margs))
-        pending.append((desc, 'refusal', ('err', 'value')))
+        pending.append((desc, 'refusal', ('ok', None) if seg is not None else ('err', kind)))
         return
     if seg is None and c['ts'].startswith('JPEG-LS') and 'Unable to encode' in built[1]:
         # the external JPEG-LS encoder gives up on some small noisy frames: a refusal by the codec, not by highdicom
@@ -745,7 +747,8 @@ def attribute(failure, open_findings):
     ids = {f['id'] for f in list(open_findings) + _own_open_findings()}
     c = failure.get('case') or {}
     site = failure.get('site') or ''
-    if ('C01-labelmap-read-above-255' in ids and site.split('/')[0] in ('read', 'read-strict')
-            and c.get('type') == 'LABELMAP' and max(c.get('segs') or [0]) > 255):
-        return 'C01-labelmap-read-above-255'
+    if ('C01-float-labelmap-undescribed' in ids and site == 'refusal' and 'undescribed' in str(failure.get('detail'))
+            and c.get('type') == 'LABELMAP' and str(c.get('dtype', '')).startswith('float') and c.get('layout') != '4d'
+            and 1 not in (c.get('segs') or [1])):
+        return 'C01-float-labelmap-undescribed'
     return None
